@@ -1,3 +1,764 @@
 import LenaModel.Model.C07
 import LenaModel.Lemmas.C07
-/-! # C07 — property theorems (nested-dictionary algebra) -/
+import LenaModel.Lemmas.C07Update
+import LenaModel.Lemmas.C07Nested
+import LenaModel.Lemmas.C07Level
+/-! # C07 — property theorems (nested-dictionary algebra)
+
+Dictionaries are slot vectors over the key alphabet of a case (`Model/Val.lean`); all theorems are
+for every alphabet size, every nesting depth, every leaf type `α` with decidable equality and every
+`level : Int`.  `contained lv a b` is "`a` is contained in `b`" with the recursion depth `lv` that
+`intersection`/`difference` document (`-1`: unlimited, `1`: items compared by `==`, `0`: whole
+dictionaries compared). -/
+
+namespace Lena.C07
+open Lena Lena.Val
+
+variable {α : Type} [DecidableEq α]
+
+/-! concrete values for the non-vacuity examples: leaves are numbers (0 is falsy), `L n` a scalar item,
+`D l` a dictionary item, `none` an absent key; two-key alphabet unless said otherwise -/
+private abbrev L (n : Nat) : Option (Val Nat) := some (.leaf n)
+private abbrev D (l : Slots Nat) : Option (Val Nat) := some (.dict l)
+private def tr : Nat → Bool := fun i => i != 0
+private theorem wfd2 (a : Slots Nat) (h : wfB 2 (.dict a) = true) : WFD 2 a := wfd_of_wfB 2 a h
+
+private theorem forall_pair {β : Type} {P : β → Prop} {a b : β} (ha : P a) (hb : P b) :
+    ∀ d ∈ [a, b], P d := by
+  intro d hd; simp at hd; rcases hd with h | h <;> rw [h] <;> assumption
+
+private theorem forall_triple {β : Type} {P : β → Prop} {a b c : β} (ha : P a) (hb : P b) (hc : P c) :
+    ∀ d ∈ [a, b, c], P d := by
+  intro d hd; simp at hd; rcases hd with h | h | h <;> rw [h] <;> assumption
+
+/-! ## containment is a partial order (at every level) -/
+
+/-- containment is reflexive -/
+theorem cont_refl (lv : Int) (a : Slots α) : contained lv a a = true := contained_refl lv a
+
+/-- containment is transitive -/
+theorem cont_trans (lv : Int) (a b c : Slots α)
+    (h1 : contained lv a b = true) (h2 : contained lv b c = true) : contained lv a c = true :=
+  contained_trans lv a b c h1 h2
+
+example : contained (-1) [D [L 0, none], none] [D [L 0, L 1], none] = true ∧
+    contained (-1) [D [L 0, L 1], none] [D [L 0, L 1], L 2] = true ∧
+    contained (-1) [D [L 0, none], none] [D [L 0, L 1], L 2] = true := by decide +kernel
+
+/-- containment is antisymmetric on dictionaries over the same key alphabet: mutual containment is `==` -/
+theorem cont_antisymm (lv : Int) (n : Nat) (a b : Slots α) (wa : WFD n a) (wb : WFD n b)
+    (h1 : contained lv a b = true) (h2 : contained lv b a = true) : a = b :=
+  contained_antisymm lv n a b wa wb h1 h2
+
+example : WFD 2 [D [L 0, none], L 3] := wfd2 _ (by decide +kernel)
+-- without the common alphabet antisymmetry fails: `{}` written with one and with two slots
+example : contained (-1) [none] [none, (none : Option (Val Nat))] = true ∧
+    contained (-1) [none, none] [(none : Option (Val Nat))] = true := by decide +kernel
+
+/-! ## intersection -/
+
+/-- `intersection(d0, d1, …)` is the left fold of the binary step (the early returns are an optimisation) -/
+theorem interN_cons (n : Nat) (lv : Int) (d : Slots α) (ds : List (Slots α)) :
+    interN n lv (d :: ds) = ds.foldl (inter2 lv) d := by
+  rw [interN, interFold_eq_foldl]
+
+theorem interN_pair (n : Nat) (lv : Int) (a b : Slots α) : interN n lv [a, b] = inter2 lv a b := by
+  rw [interN_cons]; rfl
+
+/-- "intersection(d1,...,dn) returns a dictionary contained in every argument" -/
+theorem inter_lower (n : Nat) (lv : Int) (ds : List (Slots α)) (d : Slots α) (hd : d ∈ ds) :
+    contained lv (interN n lv ds) d = true := by
+  cases ds with
+  | nil => simp at hd
+  | cons d0 ds =>
+    rw [interN_cons]
+    rcases List.mem_cons.1 hd with h | h
+    · subst h; exact foldl_inter2_lower_init lv ds d
+    · exact foldl_inter2_lower_mem lv ds d0 d h
+
+example : interN 2 (-1) [[L 0, D [L 1, L 2]], [L 0, D [L 1, L 3]], [L 4, D [L 1, none]]] = [none, D [L 1, none]] := by
+  decide +kernel
+
+/-- "… the greatest such dictionary": whatever is contained in every argument is contained in the result -/
+theorem inter_greatest (n : Nat) (lv : Int) (ds : List (Slots α)) (c : Slots α) (hne : ds ≠ [])
+    (hc : ∀ d ∈ ds, contained lv c d = true) : contained lv c (interN n lv ds) = true := by
+  cases ds with
+  | nil => exact absurd rfl hne
+  | cons d0 ds =>
+    rw [interN_cons]
+    exact foldl_inter2_greatest lv c ds d0 (hc d0 (by simp)) (fun d hd => hc d (by simp [hd]))
+
+example : (∀ d ∈ [[L 0, D [L 1, L 2]], [L 0, D [L 1, L 3]]], contained (-1) [L 0, D [none, none]] d = true) ∧
+    contained (-1) [L 0, D [none, none]] (interN 2 (-1) [[L 0, D [L 1, L 2]], [L 0, D [L 1, L 3]]]) = true := by
+  decide +kernel
+
+/-- the result is a dictionary over the same key alphabet (at every depth) -/
+theorem inter_wf (n : Nat) (lv : Int) (ds : List (Slots α)) (hw : ∀ d ∈ ds, WFD n d) :
+    WFD n (interN n lv ds) := by
+  cases ds with
+  | nil =>
+    refine ⟨by simp [interN, Val.empty], ?_⟩
+    have := WFL_emptyLike n (List.replicate n (none : Option (Val α)))
+    simpa [interN, Val.empty, emptyLike] using this
+  | cons d0 ds =>
+    rw [interN_cons]
+    exact foldl_inter2_wf lv n ds d0 (hw d0 (by simp))
+
+/-- the two laws determine the result: a greatest lower bound of the arguments is the intersection -/
+theorem inter_unique (n : Nat) (lv : Int) (ds : List (Slots α)) (g : Slots α) (hne : ds ≠ [])
+    (hw : ∀ d ∈ ds, WFD n d) (hg : WFD n g)
+    (hlower : ∀ d ∈ ds, contained lv g d = true)
+    (hgreatest : ∀ c, WFD n c → (∀ d ∈ ds, contained lv c d = true) → contained lv c g = true) :
+    interN n lv ds = g :=
+  cont_antisymm lv n _ _ (inter_wf n lv ds hw) hg
+    (hgreatest _ (inter_wf n lv ds hw) (fun d hd => inter_lower n lv ds d hd))
+    (inter_greatest n lv ds g hne hlower)
+
+/-- the order of the arguments is irrelevant (commutativity and associativity in one statement) -/
+theorem inter_perm (n : Nat) (lv : Int) (ds ds' : List (Slots α)) (hp : ds.Perm ds')
+    (hw : ∀ d ∈ ds, WFD n d) : interN n lv ds = interN n lv ds' := by
+  by_cases hne : ds = []
+  · subst hne; rw [List.nil_perm.1 hp]
+  · have hne' : ds' ≠ [] := fun h => hne (by subst h; exact List.perm_nil.1 hp)
+    have hw' : ∀ d ∈ ds', WFD n d := fun d hd => hw d (hp.mem_iff.2 hd)
+    exact cont_antisymm lv n _ _ (inter_wf n lv ds hw) (inter_wf n lv ds' hw')
+      (inter_greatest n lv ds' _ hne' (fun d hd => inter_lower n lv ds d (hp.mem_iff.2 hd)))
+      (inter_greatest n lv ds _ hne (fun d hd => inter_lower n lv ds' d (hp.mem_iff.1 hd)))
+
+example : interN 2 2 [[L 0, D [L 1, L 2]], [L 0, D [L 1, L 3]], [L 4, D [L 1, none]]] =
+    interN 2 2 [[L 4, D [L 1, none]], [L 0, D [L 1, L 2]], [L 0, D [L 1, L 3]]] :=
+  inter_perm 2 2 _ _ (by decide) (forall_triple (wfd2 _ (by decide +kernel)) (wfd2 _ (by decide +kernel))
+    (wfd2 _ (by decide +kernel)))
+
+/-- commutativity -/
+theorem inter_comm (n : Nat) (lv : Int) (a b : Slots α) (wa : WFD n a) (wb : WFD n b) :
+    interN n lv [a, b] = interN n lv [b, a] :=
+  inter_perm n lv [a, b] [b, a] (List.Perm.swap b a []) (forall_pair wa wb)
+
+/-- associativity: both nestings of the binary intersection are the ternary one -/
+theorem inter_assoc (n : Nat) (lv : Int) (a b c : Slots α) (wa : WFD n a) (wb : WFD n b) (wc : WFD n c) :
+    interN n lv [interN n lv [a, b], c] = interN n lv [a, b, c] ∧
+    interN n lv [a, interN n lv [b, c]] = interN n lv [a, b, c] := by
+  have wbc : WFD n (interN n lv [b, c]) := inter_wf n lv _ (forall_pair wb wc)
+  constructor
+  · -- the left nesting is literally the fold
+    simp only [interN_cons, List.foldl_cons, List.foldl_nil]
+  · refine (inter_unique n lv [a, b, c] _ (by simp) (forall_triple wa wb wc)
+      (inter_wf n lv _ (forall_pair wa wbc)) ?_ ?_).symm
+    · have hbc := inter_lower n lv [a, interN n lv [b, c]] (interN n lv [b, c]) (by simp)
+      exact forall_triple (inter_lower n lv _ _ (by simp))
+        (cont_trans lv _ _ _ hbc (inter_lower n lv [b, c] _ (by simp)))
+        (cont_trans lv _ _ _ hbc (inter_lower n lv [b, c] _ (by simp)))
+    · intro x _ hx
+      exact inter_greatest n lv _ x (by simp) (forall_pair (hx _ (by simp))
+        (inter_greatest n lv [b, c] x (by simp) (forall_pair (hx _ (by simp)) (hx _ (by simp)))))
+
+/-- idempotence -/
+theorem inter_idem (n : Nat) (lv : Int) (a : Slots α) (wa : WFD n a) : interN n lv [a, a] = a :=
+  inter_unique n lv [a, a] a (by simp) (forall_pair wa wa) wa
+    (forall_pair (cont_refl lv _) (cont_refl lv _))
+    (by intro c _ hc; exact hc a (by simp))
+
+/-- `a` is contained in `b` iff intersecting with `b` gives `a` back -/
+theorem inter_eq_left_iff (n : Nat) (lv : Int) (a b : Slots α) (wa : WFD n a) (wb : WFD n b) :
+    interN n lv [a, b] = a ↔ contained lv a b = true := by
+  constructor
+  · intro h
+    have := inter_lower n lv [a, b] b (by simp)
+    rwa [h] at this
+  · intro h
+    exact inter_unique n lv [a, b] a (by simp) (forall_pair wa wb) wa
+      (forall_pair (cont_refl lv _) h) (by intro c _ hc; exact hc a (by simp))
+
+/-- `intersection()` is the empty dictionary; `intersection(d)` is (a copy of) `d`, at every level -/
+theorem inter_nil_single (n : Nat) (lv : Int) (d : Slots α) :
+    interN n lv ([] : List (Slots α)) = Val.empty n ∧ interN n lv [d] = d := by
+  simp [interN, interFold]
+
+/-- level 0 ("all dicts must be equal, otherwise an empty dict is returned") -/
+theorem inter_level0 (n : Nat) (a b : Slots α) :
+    interN n 0 [a, b] = if a = b then a else emptyLike a := by
+  rw [interN_pair]
+  unfold inter2 interLevel0
+  simp only [if_true]
+  by_cases e : a = b
+  · subst e
+    by_cases hn : nonEmpty a = true
+    · simp [hn]
+    · simp [hn]
+      exact (eq_emptyLike_of_empty a (by simpa using hn)).symm
+  · have e' : ¬ b = a := fun h => e h.symm
+    simp [e, e']
+
+example : interN 2 0 [[L 0, D [L 1, L 2]], [L 0, D [L 1, L 2]]] = [L 0, D [L 1, L 2]] ∧
+    interN 2 0 [[L 0, D [L 1, L 2]], [L 0, D [L 1, L 3]]] = [none, none] := by decide +kernel
+
+/-- level 1 ("the result contains those subdictionaries which are equal"): key by key -/
+theorem inter_level1_key (n : Nat) (a b : Slots α) (k : Nat) :
+    getSlot (interN n 1 [a, b]) k = if getSlot a k = getSlot b k then getSlot a k else none := by
+  rw [interN_pair]
+  unfold inter2
+  simp only [show ¬ ((1 : Int) = 0) by decide, if_false, getSlot_interL]
+  cases ha : getSlot a k with
+  | none => cases getSlot b k <;> simp [interO]
+  | some v =>
+    cases hb : getSlot b k with
+    | none => simp [interO]
+    | some w =>
+      cases v <;> cases w <;> simp [interO, eq_comm]
+
+example : interN 2 1 [[L 0, D [L 1, L 2]], [L 0, D [L 1, L 3]]] = [L 0, none] ∧
+    interN 2 2 [[L 0, D [L 1, L 2]], [L 0, D [L 1, L 3]]] = [L 0, D [L 1, none]] := by decide +kernel
+
+/-- key by key at the other levels: an item is kept when both have it with equal values, replaced by
+the intersection one level down when both values are dictionaries, dropped otherwise -/
+theorem inter_key (n : Nat) (lv : Int) (h0 : lv ≠ 0) (a b : Slots α) (k : Nat) :
+    getSlot (interN n lv [a, b]) k = interO lv (getSlot a k) (getSlot b k) := by
+  rw [interN_pair]
+  unfold inter2
+  simp only [h0, if_false, getSlot_interL]
+
+omit [DecidableEq α] in
+theorem mapM_asDict_none_iff : ∀ (args : List (Val α)),
+    args.mapM asDict = none ↔ ∃ v ∈ args, isDict v = false
+  | [] => by simp
+  | .leaf a :: vs => by
+      constructor
+      · intro _; exact ⟨.leaf a, by simp, rfl⟩
+      · intro _; simp [List.mapM_cons, asDict]
+  | .dict l :: vs => by
+      have ih := mapM_asDict_none_iff vs
+      constructor
+      · intro h
+        cases hm : vs.mapM asDict with
+        | none =>
+          obtain ⟨v, hv, hd⟩ := ih.1 hm
+          exact ⟨v, by simp [hv], hd⟩
+        | some ds => simp [List.mapM_cons, asDict, hm] at h
+      · rintro ⟨v, hv, hd⟩
+        rcases List.mem_cons.1 hv with h | h
+        · rw [h] at hd; simp [isDict] at hd
+        · have := ih.2 ⟨v, h, hd⟩
+          simp [List.mapM_cons, asDict, this]
+
+omit [DecidableEq α] in
+theorem mapM_asDict_map_dict : ∀ (ds : List (Slots α)), (ds.map Val.dict).mapM asDict = some ds
+  | [] => rfl
+  | d :: ds => by simp [List.mapM_cons, asDict, mapM_asDict_map_dict ds]
+
+/-- `LenaTypeError` exactly when some argument is not a dictionary; otherwise the value computed above -/
+theorem intersection_error_iff (n : Nat) (lv : Int) (args : List (Val α)) :
+    (intersection n lv args = .lenaTypeError ↔ ∃ v ∈ args, isDict v = false) ∧
+    (∀ ds, args = ds.map Val.dict → intersection n lv args = .ok (interN n lv ds)) := by
+  constructor
+  · rw [← mapM_asDict_none_iff]
+    unfold intersection
+    cases args.mapM asDict <;> simp
+  · intro ds h
+    subst h
+    unfold intersection
+    rw [mapM_asDict_map_dict]
+
+
+example : intersection 1 (-1) [.dict [L 0], .leaf 5] = .lenaTypeError ∧
+    intersection 1 (-1) [.dict [L 0], .dict [L 0]] = .ok [L 0] := by decide +kernel
+
+/-! ## difference -/
+section diff
+variable (truthy : α → Bool)
+
+/-- "difference(d1, d2) returns exactly the items of d1 not contained in d2": the model of the code
+computes the specification `diffSpec`, which is written with containment only -/
+theorem diff_exact (lv : Int) (a b : Slots α) : difference truthy lv a b = diffSpec lv a b := by
+  unfold difference diffSpec
+  by_cases h0 : lv = 0
+  · simp [h0]
+  · simp only [h0, if_false]
+    split
+    · rename_i e
+      subst e
+      -- every item of `a` is contained in `a`
+      have h := diffSpecL_nonEmpty lv a a
+      rw [contL_refl] at h
+      have hlen : (diffSpecL lv a a).length = a.length := by
+        rw [← diffL_eq_spec (fun _ => true)]; exact diffL_length _ lv a a
+      have hE := eq_emptyLike_of_empty (diffSpecL lv a a) (by simpa using h)
+      exact (hE.trans (by simp [emptyLike, hlen])).symm
+    · exact diffL_eq_spec truthy lv a b
+
+-- the defect repaired by `fix: keep falsy and empty values in context.difference`: `{"k": 0}` against `{"k": 1}`
+example : difference tr (-1) [L 0, L 5] [L 1, L 5] = [L 0, none] := by decide +kernel
+example : difference tr 2 [D [none, none], D [L 0, L 2]] [L 1, D [L 1, L 2]] = [D [none, none], D [L 0, none]] := by
+  decide +kernel
+
+/-- the truth value of leaves plays no role (`if res:` only ever sees dictionaries) -/
+theorem diff_truthiness_irrelevant (truthy' : α → Bool) (lv : Int) (a b : Slots α) :
+    difference truthy lv a b = difference truthy' lv a b := by
+  rw [diff_exact, diff_exact]
+
+/-- key by key: `k` is a key of the difference iff item `k` of `d1` is not contained in `d2` -/
+theorem diff_key_iff (lv : Int) (h0 : lv ≠ 0) (a b : Slots α) (k : Nat) :
+    (getSlot (difference truthy lv a b) k).isSome = !contO lv (getSlot a k) (getSlot b k) := by
+  unfold difference
+  simp only [h0, if_false]
+  split
+  · rename_i e
+    subst e
+    rw [contO_refl]
+    have : getSlot (emptyLike a) k = none := by
+      cases a with
+      | nil => simp [emptyLike]
+      | cons x r => simpa [getPath_single] using getPath_emptyLike (x :: r) k []
+    simp [this]
+  · rw [getSlot_diffL, diffO_eq_spec, diffSpecO_isSome]
+
+/-- … and its value there is the item itself, or — for two dictionaries, when the level allows — the
+difference one level down -/
+theorem diff_key_value (lv : Int) (h0 : lv ≠ 0) (a b : Slots α) (hab : a ≠ b) (k : Nat) :
+    getSlot (difference truthy lv a b) k = diffSpecO lv (getSlot a k) (getSlot b k) := by
+  unfold difference
+  simp only [h0, hab, if_false]
+  rw [getSlot_diffL, diffO_eq_spec]
+
+/-- "including items whose value is 0, False, None, an empty string": a scalar item of `d1` that `d2`
+does not have with an equal value is in the difference, whatever its truth value and whatever the level -/
+theorem diff_keeps_scalar (lv : Int) (a b : Slots α) (k : Nat) (c : α)
+    (ha : getSlot a k = some (.leaf c)) (hb : getSlot b k ≠ some (.leaf c)) :
+    getSlot (difference truthy lv a b) k = some (.leaf c) := by
+  have hab : a ≠ b := by
+    intro h; subst h; exact hb ha
+  unfold difference
+  simp only [hab, if_false]
+  split
+  · exact ha
+  · rw [getSlot_diffL, ha]
+    cases hk : getSlot b k with
+    | none => simp [diffO]
+    | some w =>
+      cases w with
+      | leaf e =>
+        have : ¬ c = e := by
+          intro h; subst h; exact hb hk
+        simp [diffO, this, isDict]
+      | dict y => simp [diffO, isDict]
+
+example : getSlot [L 0, L 5] 0 = some (.leaf 0) ∧ getSlot [L 1, L 5] 0 ≠ some (.leaf 0) ∧ tr 0 = false := by
+  decide +kernel
+
+/-- "… or an empty dictionary": an empty dictionary item of `d1` against a missing or non-dictionary
+item of `d2` is in the difference -/
+theorem diff_keeps_empty_dict (lv : Int) (a b : Slots α) (k : Nat) (x : Slots α)
+    (ha : getSlot a k = some (.dict x)) (hb : ∀ y, getSlot b k ≠ some (.dict y)) :
+    getSlot (difference truthy lv a b) k = some (.dict x) := by
+  have hab : a ≠ b := by
+    intro h; subst h; exact hb x ha
+  unfold difference
+  simp only [hab, if_false]
+  split
+  · exact ha
+  · rw [getSlot_diffL, ha]
+    cases hk : getSlot b k with
+    | none => simp [diffO]
+    | some w =>
+      cases w with
+      | leaf e => simp [diffO, isDict]
+      | dict y => exact absurd hk (hb y)
+
+example : difference tr 3 [D [none, none], none] [L 7, none] = [D [none, none], none] := by decide +kernel
+
+/-- the difference is empty iff `d1` is contained in `d2` -/
+theorem diff_empty_iff (lv : Int) (a b : Slots α) :
+    nonEmpty (difference truthy lv a b) = false ↔ contained lv a b = true := by
+  rw [diff_exact]
+  unfold diffSpec contained
+  by_cases h0 : lv = 0
+  · simp only [h0, if_true]
+    by_cases e : a = b
+    · simp [e]
+    · simp [e]
+  · simp only [h0, if_false, diffSpecL_nonEmpty]
+    simp
+
+example : difference tr (-1) [D [L 0, none], none] [D [L 0, L 1], L 2] = [none, none] ∧
+    contained (-1) [D [L 0, none], none] [D [L 0, L 1], L 2] = true := by decide +kernel
+
+end diff
+
+mutual
+theorem diffSpecO_contained (lv : Int) : ∀ x y : Option (Val α), contO lv (diffSpecO lv x y) x = true
+  | none, _ => by simp [diffSpecO, contO]
+  | some v, none => by simp [diffSpecO, contO_refl]
+  | some (.leaf a), some (.leaf b) => by
+      by_cases e : a = b <;> simp [diffSpecO, contO, e]
+  | some (.leaf a), some (.dict y) => by simp [diffSpecO, contO]
+  | some (.dict x), some (.leaf b) => by simp [diffSpecO, contO]
+  | some (.dict x), some (.dict y) => by
+      simp only [diffSpecO]
+      split
+      · rw [contO]
+      · split
+        · exact contO_refl lv _
+        · rename_i h1
+          simp [contO, h1, diffSpecL_contained (lv - 1) x y]
+theorem diffSpecL_contained (lv : Int) : ∀ a b : Slots α, contL lv (diffSpecL lv a b) a = true
+  | [], _ => by simp [diffSpecL, contL]
+  | x :: r, [] => by simp [diffSpecL, contL, diffSpecO_contained lv x none, diffSpecL_contained lv r []]
+  | x :: r, y :: r' => by simp [diffSpecL, contL, diffSpecO_contained lv x y, diffSpecL_contained lv r r']
+end
+
+/-- the difference is a part of `d1` -/
+theorem diff_contained (truthy : α → Bool) (lv : Int) (a b : Slots α) :
+    contained lv (difference truthy lv a b) a = true := by
+  rw [diff_exact]
+  unfold diffSpec contained
+  by_cases h0 : lv = 0
+  · simp only [h0, if_true]
+    split <;> simp
+  · simp only [h0, if_false]
+    exact diffSpecL_contained lv a b
+
+/-- `difference` of values that are not both dictionaries returns the first one -/
+theorem diffV_nondict (truthy : α → Bool) (lv : Int) (v w : Val α) (h : isDict v = false ∨ isDict w = false) :
+    diffV truthy lv v w = v := by
+  cases v <;> cases w <;> simp_all [diffV, isDict]
+
+/-- for two dictionaries `diffV` is `difference` -/
+theorem diffV_dict (truthy : α → Bool) (lv : Int) (a b : Slots α) :
+    diffV truthy lv (.dict a) (.dict b) = .dict (difference truthy lv a b) := by
+  unfold difference
+  rw [diffV]
+  split
+  · rfl
+  · split <;> rfl
+
+/-! ## reconstruction -/
+
+/-- "recursively updating the intersection with the difference reconstructs d1" — at every level,
+for every truth-value assignment of leaves -/
+theorem reconstruct (truthy : α → Bool) (n : Nat) (lv : Int) (a b : Slots α) :
+    updL (interN n lv [a, b]) (difference truthy lv a b) = a := by
+  rw [interN_pair]
+  unfold inter2 difference interLevel0
+  by_cases h0 : lv = 0
+  · simp only [h0, if_true]
+    by_cases e : a = b
+    · subst e
+      simp only [if_true, true_and]
+      split
+      · exact updL_of_empty_right a (emptyLike a) (by simp) (by simp)
+      · rename_i hn
+        rw [updL_of_empty_right (emptyLike a) (emptyLike a) rfl (by simp)]
+        exact (eq_emptyLike_of_empty a (by simpa using hn)).symm
+    · have e' : ¬ b = a := fun h => e h.symm
+      simp only [e, e', false_and, if_false]
+      exact updL_empty_left _ _ (by simp) (by simp)
+  · simp only [h0, if_false]
+    split
+    · rename_i e
+      subst e
+      rw [interL_self]
+      exact updL_of_empty_right a (emptyLike a) (by simp) (by simp)
+    · exact recL truthy lv a b
+
+example : interN 2 (-1) [[L 0, D [L 1, L 2]], [L 1, D [L 1, L 3]]] = [none, D [L 1, none]] ∧
+    difference tr (-1) [L 0, D [L 1, L 2]] [L 1, D [L 1, L 3]] = [L 0, D [none, L 2]] ∧
+    updL [none, D [L 1, none]] [L 0, D [none, L 2]] = [L 0, D [L 1, L 2]] := by decide +kernel
+
+/-- the same through the entry point of `update_recursively` (no `LenaTypeError`) -/
+theorem reconstruct_call (truthy : α → Bool) (n : Nat) (lv : Int) (a b : Slots α) :
+    updateRecursively (.dict (interN n lv [a, b])) (.dict (difference truthy lv a b)) = .ok a := by
+  simp [updateRecursively, reconstruct]
+
+/-! ## update_recursively -/
+
+/-- "update_recursively(d, other) makes other contained in d" (unlimited depth) -/
+theorem update_contains (d o : Slots α) : contained (-1) o (updL d o) = true := by
+  unfold contained
+  simp only [show ¬ ((-1 : Int) = 0) by decide, if_false]
+  exact updL_contains (-1) (by decide) d o
+
+omit [DecidableEq α] in
+/-- "… while keeping every item of d that other does not overwrite": an item of `d` at a path that
+`other` leaves alone has the same value afterwards (and such a path absent from `d` stays absent) -/
+theorem update_keeps (d o : Slots α) (p : List Nat) (h : untouchedL o p = true) :
+    getPath (.dict (updL d o)) p = getPath (.dict d) p := updL_keeps p d o h
+
+example : untouchedL [none, D [none, L 7]] [1, 0] = true ∧ untouchedL [none, D [none, L 7]] [0] = true ∧
+    untouchedL [none, D [none, L 7]] [1, 1] = false ∧
+    updL [L 0, D [L 1, L 2]] [none, D [none, L 7]] = [L 0, D [L 1, L 7]] := by decide +kernel
+
+omit [DecidableEq α] in
+/-- the keys afterwards are those of `d` and of `other` -/
+theorem update_keys (d o : Slots α) (k : Nat) :
+    (getSlot (updL d o) k).isSome = ((getSlot d k).isSome || (getSlot o k).isSome) := by
+  rw [getSlot_updL]
+  cases hd : getSlot d k with
+  | none =>
+    cases ho : getSlot o k with
+    | none => simp [updO]
+    | some w => cases w <;> simp [updO]
+  | some v =>
+    cases ho : getSlot o k with
+    | none => simp [updO]
+    | some w => cases v <;> cases w <;> simp [updO]
+
+omit [DecidableEq α] in
+/-- a scalar item of `other` overwrites whatever `d` had -/
+theorem update_scalar_overwrites (d o : Slots α) (k : Nat) (c : α) (h : getSlot o k = some (.leaf c)) :
+    getSlot (updL d o) k = some (.leaf c) := by
+  rw [getSlot_updL, h]
+  cases getSlot d k <;> simp [updO]
+
+omit [DecidableEq α] in
+mutual
+theorem updO_self : ∀ (x : Option (Val α)), updO x x = x
+  | none => by simp [updO]
+  | some (.leaf a) => by simp [updO]
+  | some (.dict y) => by simp [updO, updL_self y]
+theorem updL_self : ∀ (a : Slots α), updL a a = a
+  | [] => by simp [updL]
+  | x :: r => by simp [updL, updO_self x, updL_self r]
+end
+
+omit [DecidableEq α] in
+mutual
+theorem updO_idem : ∀ (x y : Option (Val α)), updO (updO x y) y = updO x y
+  | x, none => by simp [updO_none_right]
+  | x, some (.leaf a) => by cases x <;> simp [updO]
+  | none, some (.dict y) => by simp [updO, updL_self y]
+  | some (.leaf _), some (.dict y) => by simp [updO, updL_idem (emptyLike y) y]
+  | some (.dict x), some (.dict y) => by simp [updO, updL_idem x y]
+theorem updL_idem : ∀ (d o : Slots α), updL (updL d o) o = updL d o
+  | d, [] => by simp [updL]
+  | [], y :: r' => by simp [updL, updO_idem none y, updL_idem [] r']
+  | x :: r, y :: r' => by simp [updL, updO_idem x y, updL_idem r r']
+end
+
+omit [DecidableEq α] in
+/-- updating twice with the same `other` changes nothing more -/
+theorem update_idem (d o : Slots α) : updL (updL d o) o = updL d o := updL_idem d o
+
+omit [DecidableEq α] in
+/-- `LenaTypeError` exactly when an argument is not a dictionary -/
+theorem update_error_iff (d o : Val α) :
+    (updateRecursively d o = .lenaTypeError ↔ (isDict d = false ∨ isDict o = false)) ∧
+    (∀ x y, d = .dict x → o = .dict y → updateRecursively d o = .ok (updL x y)) := by
+  constructor
+  · cases d <;> cases o <;> simp [updateRecursively, isDict]
+  · intro x y hd ho; subst hd; subst ho; rfl
+
+example : updateRecursively (.dict [L 0]) (.leaf 3) = (.lenaTypeError : Out (Slots Nat)) := by decide +kernel
+
+/-! ## update_nested -/
+
+omit [DecidableEq α] in
+theorem nestL_eq_nestV (k : Nat) (dk : Val α) (o : Slots α) :
+    nestV k dk (.dict o) = Out.map Val.dict (nestL k dk k o) := by
+  rw [nestV]
+  generalize nestL k dk k o = r
+  cases r <;> simp [Out.map]
+
+omit [DecidableEq α] in
+/-- `update_nested` either succeeds or raises `TypeError`; afterwards `d[key]` is (the modified) `other`
+— `other` itself when `d` had no `key` — and the other keys of `d` are untouched -/
+theorem update_nested_ok (k : Nat) (d o : Slots α) :
+    updateNested k d o ≠ .lenaTypeError ∧
+    (getSlot d k = none → updateNested k d o = .ok (setSlot d k (some (.dict o)))) ∧
+    (∀ d', updateNested k d o = .ok d' →
+      (∃ o', getSlot d' k = some (.dict o')) ∧ ∀ j, j ≠ k → getSlot d' j = getSlot d j) := by
+  unfold updateNested
+  cases hk : getSlot d k with
+  | none =>
+    refine ⟨by simp, by simp, ?_⟩
+    intro d' h
+    simp only [Out.ok.injEq] at h
+    subst h
+    exact ⟨⟨o, getSlot_setSlot_eq d k _⟩, fun j hj => getSlot_setSlot_ne d k j _ hj⟩
+  | some dk =>
+    have hno := nestV_no_lenaTypeError k dk _ (.dict o) rfl
+    rw [nestL_eq_nestV] at hno
+    simp only []
+    cases hn : nestL k dk k o with
+    | ok o' =>
+      refine ⟨by simp, by simp, ?_⟩
+      intro d' h
+      simp only [Out.ok.injEq] at h
+      subst h
+      exact ⟨⟨o', getSlot_setSlot_eq d k _⟩, fun j hj => getSlot_setSlot_ne d k j _ hj⟩
+    | lenaTypeError => rw [hn] at hno; simp [Out.map] at hno
+    | typeError => simp
+
+omit [DecidableEq α] in
+/-- "update_nested keeps the previous d[key] reachable under the new one": it sits below the new
+`d[key]` after as many further `key`s as `other` had nested (`nestDepth`), plus one -/
+theorem update_nested_keeps (k : Nat) (d o d' : Slots α) (dk : Val α)
+    (hk : getSlot d k = some dk) (h : updateNested k d o = .ok d') :
+    getPath (.dict d') (List.replicate (nestDepth k (.dict o) + 2) k) = some dk := by
+  unfold updateNested at h
+  rw [hk] at h
+  simp only [] at h
+  cases hn : nestL k dk k o with
+  | ok o' =>
+    rw [hn] at h
+    simp only [Out.ok.injEq] at h
+    subst h
+    have hv : nestV k dk (.dict o) = .ok (.dict o') := by rw [nestL_eq_nestV, hn]; rfl
+    rw [List.replicate_succ, getPath_cons_some _ _ _ _ (getSlot_setSlot_eq d k _)]
+    exact nestV_reaches k dk _ (.dict o) (.dict o') rfl hv
+  | lenaTypeError => rw [hn] at h; simp at h
+  | typeError => rw [hn] at h; simp at h
+
+-- `update_nested("k0", {"k0": 5}, {"k0": {"k1": 3}, "k1": 3})`: the previous 5 ends up at `k0.k0.k0`
+example : updateNested 0 [L 5, none] [D [none, L 3], L 3] = .ok [D [D [L 5, L 3], L 3], none] ∧
+    nestDepth 0 (.dict [D [none, L 3], L 3]) = 1 ∧
+    getPath (.dict [D [D [L 5, L 3], L 3], none]) [0, 0, 0] = some (.leaf 5) := by decide +kernel
+
+omit [DecidableEq α] in
+/-- nothing of `other` is lost: every dictionary along the chain `other[key]…[key]` keeps its other keys -/
+theorem update_nested_other_kept (k : Nat) (d o d' o' : Slots α)
+    (h : updateNested k d o = .ok d') (ho : getSlot d' k = some (.dict o'))
+    (i j : Nat) (hi : i ≤ nestDepth k (.dict o)) (hj : j ≠ k) :
+    getPath (.dict o') (List.replicate i k ++ [j]) = getPath (.dict o) (List.replicate i k ++ [j]) := by
+  unfold updateNested at h
+  cases hk : getSlot d k with
+  | none =>
+    rw [hk] at h
+    simp only [Out.ok.injEq] at h
+    subst h
+    rw [getSlot_setSlot_eq] at ho
+    simp only [Option.some.injEq, Val.dict.injEq] at ho
+    rw [ho]
+  | some dk =>
+    rw [hk] at h
+    simp only [] at h
+    cases hn : nestL k dk k o with
+    | ok o'' =>
+      rw [hn] at h
+      simp only [Out.ok.injEq] at h
+      subst h
+      rw [getSlot_setSlot_eq] at ho
+      simp only [Option.some.injEq, Val.dict.injEq] at ho
+      subst ho
+      have hv : nestV k dk (.dict o) = .ok (.dict o'') := by rw [nestL_eq_nestV, hn]; rfl
+      exact nestV_keeps k dk _ (.dict o) (.dict o'') rfl hv i j hi hj
+    | lenaTypeError => rw [hn] at h; simp at h
+    | typeError => rw [hn] at h; simp at h
+
+omit [DecidableEq α] in
+/-- `TypeError` exactly when `d` has the key and the chain `other[key]…[key]` ends in a value that is
+not a dictionary (there is nowhere to put the previous value) -/
+theorem update_nested_typeError_iff (k : Nat) (d o : Slots α) :
+    updateNested k d o = .typeError ↔
+      (getSlot d k).isSome = true ∧
+        ∃ c, getPath (.dict o) (List.replicate (nestDepth k (.dict o)) k) = some (.leaf c) := by
+  unfold updateNested
+  cases hk : getSlot d k with
+  | none => simp
+  | some dk =>
+    have := nestV_typeError_iff k dk _ (.dict o) rfl
+    rw [nestL_eq_nestV] at this
+    simp only [Option.isSome_some, true_and]
+    rw [← this]
+    generalize nestL k dk k o = r
+    cases r <;> simp [Out.map]
+
+example : updateNested 0 [L 5, none] [D [L 7, L 3], L 3] = .typeError ∧
+    getPath (.dict [D [L 7, L 3], L 3]) (List.replicate (nestDepth 0 (.dict [D [L 7, L 3], L 3])) 0) = some (.leaf 7) := by
+  decide +kernel
+
+/-! ## levels -/
+
+/-- containment with a limited recursion depth implies unlimited containment -/
+theorem cont_level_unlimited (lv : Int) (a b : Slots α) (h : contained lv a b = true) :
+    contained (-1) a b = true := by
+  unfold contained at *
+  simp only [show ¬ ((-1 : Int) = 0) by decide, if_false]
+  by_cases h0 : lv = 0
+  · simp [h0] at h
+    rcases h with h | h
+    · subst h; exact contL_refl _ _
+    · exact contL_of_empty _ a b h
+  · simp [h0] at h
+    exact contL_unlimited lv (-1) (by decide) a b h
+
+/-- the intersection with a limited level is a part of the unlimited one -/
+theorem inter_level_le_unlimited (n : Nat) (lv : Int) (ds : List (Slots α)) (hne : ds ≠ []) :
+    contained (-1) (interN n lv ds) (interN n (-1) ds) = true :=
+  inter_greatest n (-1) ds _ hne (fun d hd => cont_level_unlimited lv _ _ (inter_lower n lv ds d hd))
+
+/-! ## reconstruction from any common part (what `Zip._create_context` and `group_plots` rely on) -/
+
+/-- if `c` is contained in `a`, updating `c` with `difference(a, c)` gives `a` back -/
+theorem reconstruct_from_part (truthy : α → Bool) (n : Nat) (lv : Int) (a c : Slots α)
+    (wa : WFD n a) (wc : WFD n c) (h : contained lv c a = true) :
+    updL c (difference truthy lv a c) = a := by
+  have h1 : interN n lv [a, c] = c := by
+    rw [inter_comm n lv a c wa wc]
+    exact (inter_eq_left_iff n lv c a wc wa).2 h
+  have := reconstruct truthy n lv a c
+  rwa [h1] at this
+
+/-- every argument of an n-ary intersection is the intersection updated with its own difference -/
+theorem reconstruct_nary (truthy : α → Bool) (n : Nat) (lv : Int) (ds : List (Slots α))
+    (hw : ∀ d ∈ ds, WFD n d) (d : Slots α) (hd : d ∈ ds) :
+    updL (interN n lv ds) (difference truthy lv d (interN n lv ds)) = d :=
+  reconstruct_from_part truthy n lv d _ (hw d hd) (inter_wf n lv ds hw) (inter_lower n lv ds d hd)
+
+
+/-! ## a level above the nesting depth limits nothing -/
+
+theorem LevelCovers.ne_zero {lv : Int} {k : Nat} (h : LevelCovers lv k) : lv ≠ 0 := by
+  rcases h with h | h <;> omega
+
+theorem foldl_inter2_level (lv lv' : Int) : ∀ (ds : List (Slots α)) (res : Slots α),
+    LevelCovers lv (depthL res) → LevelCovers lv' (depthL res) →
+    ds.foldl (inter2 lv) res = ds.foldl (inter2 lv') res
+  | [], _, _, _ => rfl
+  | d :: ds, res, h1, h2 => by
+      simp only [List.foldl_cons]
+      have e : inter2 lv res d = inter2 lv' res d := by
+        unfold inter2
+        simp only [h1.ne_zero, h2.ne_zero, if_false]
+        exact interL_level lv lv' res d h1 h2
+      rw [e]
+      have hd : depthL (inter2 lv' res d) ≤ depthL res := by
+        unfold inter2
+        simp only [h2.ne_zero, if_false]
+        exact depth_interL lv' res d
+      exact foldl_inter2_level lv lv' ds _ (h1.mono hd) (h2.mono hd)
+
+/-- "every recursion level": a level above the nesting depth of the first argument's items — like
+every negative level — limits nothing: all such levels give the same intersection … -/
+theorem level_covers_inter (n : Nat) (lv lv' : Int) (a : Slots α) (ds : List (Slots α))
+    (h1 : LevelCovers lv (depthL a)) (h2 : LevelCovers lv' (depthL a)) :
+    interN n lv (a :: ds) = interN n lv' (a :: ds) := by
+  rw [interN_cons, interN_cons]
+  exact foldl_inter2_level lv lv' ds a h1 h2
+
+/-- … the same difference … -/
+theorem level_covers_diff (truthy : α → Bool) (lv lv' : Int) (a b : Slots α)
+    (h1 : LevelCovers lv (depthL a)) (h2 : LevelCovers lv' (depthL a)) :
+    difference truthy lv a b = difference truthy lv' a b := by
+  rw [diff_exact, diff_exact]
+  unfold diffSpec
+  simp only [h1.ne_zero, h2.ne_zero, if_false]
+  exact diffSpecL_level lv lv' a b h1 h2
+
+/-- … and the same containment -/
+theorem level_covers_cont (lv lv' : Int) (a b : Slots α)
+    (h1 : LevelCovers lv (depthL a)) (h2 : LevelCovers lv' (depthL a)) :
+    contained lv a b = contained lv' a b := by
+  unfold contained
+  simp only [h1.ne_zero, h2.ne_zero, if_false]
+  exact contL_level lv lv' a b h1 h2
+
+example : depthL [L 0, D [L 1, D [none, none]]] = 2 ∧ LevelCovers 3 2 ∧ LevelCovers (-1) 2 ∧ ¬ LevelCovers 2 2 := by
+  refine ⟨by decide +kernel, Or.inr (by decide), Or.inl (by decide), ?_⟩
+  rintro (h | h) <;> omega
+-- a level that does not exceed the depth does limit: level 2 against level 3 on items of depth 2
+example : interN 2 2 [[L 0, D [L 1, D [L 5, L 6]]], [L 0, D [L 1, D [L 5, L 7]]]] = [L 0, D [L 1, none]] ∧
+    interN 2 3 [[L 0, D [L 1, D [L 5, L 6]]], [L 0, D [L 1, D [L 5, L 7]]]] = [L 0, D [L 1, D [L 5, none]]] := by
+  decide +kernel
+
+
+end Lena.C07
